@@ -30,6 +30,7 @@ for l in st:
         p = subprocess.run("patch -p1 --no-backup-if-mismatch -F3", shell=True, input=d.encode(), cwd="/verif", stdout=subprocess.PIPE, stderr=subprocess.STDOUT)
         print("patch %s: rc=%d %s" % (path, p.returncode, p.stdout.decode().strip().replace("\n", " | ")[:300]))
 # repo commits
+remap = []
 log = sh("git -C /repo log --reverse --format='%%H %%s' main..wk-%s" % name).strip().split("\n")
 for l in log:
     if not l.strip(): continue
@@ -40,3 +41,9 @@ for l in log:
     r = subprocess.run(["git", "-C", "/repo", "cherry-pick", h], stdout=subprocess.PIPE, stderr=subprocess.STDOUT)
     print("pick %s rc=%d %s" % (subj[:80], r.returncode, "" if r.returncode == 0 else r.stdout.decode()[-400:]))
     if r.returncode != 0: sys.exit(1)
+    new = sh("git -C /repo log --format=%H -1 main").strip()
+    remap.append((h[:7], new[:7]))
+for old, new in remap:
+    out = sh("grep -rl %s /verif/KNOWN_FINDINGS.jsonl /verif/corpus /verif/gen /verif/coq --include=*.v --include=*.py --include=*.txt --include=*.jsonl /verif/.work/design_%s.diff 2>/dev/null" % (old, name)).split()
+    for f in out:
+        t = open(f).read().replace(old, new); open(f, "w").write(t); print("rehash %s -> %s in %s" % (old, new, f))
